@@ -43,3 +43,8 @@ func (t *TraefikOidc) VerifHousekeeping() {
 	t.tokenCache.Cleanup()
 	t.jwkCache.Cleanup()
 }
+
+// VerifEndpoints returns the provider endpoints the instance currently uses (read access only).
+func (t *TraefikOidc) VerifEndpoints() map[string]string {
+	return map[string]string{"auth": t.authURL, "token": t.tokenURL, "jwks": t.jwksURL, "end_session": t.endSessionURL, "revocation": t.revocationURL, "issuer": t.issuerURL}
+}
